@@ -152,5 +152,7 @@ def check_rates(ctx, d, den, data, created=None):
 def avoid(ctx, syms, tags):
     """symbolic constants are assumed different from the tag constants that identify leaf units in the bytes"""
     for x in syms:
+        if not hasattr(x, 'e'):
+            continue          # concrete replay: the model already satisfies the assumption
         for t in tags:
             ctx.assume(x.e != z3.RealVal(t))
